@@ -19,6 +19,27 @@ def run(rep, tier, seed, model_ok=True, effort=1):
                 "the independently computed expectation, `show`, and rfd_from_content correspondence in Coq; non-trivial = distinct project whose update succeeds")
     rwcheck.run_update_projects(rep, tier, seed, "stale", model_ok=model_ok, effort=effort)
     config_under_glob(rep)
+    shadowed_pattern(rep)
+
+
+def shadowed_pattern(rep):
+    """An earlier pattern whose match swallows every match of a later one (a bare {pep440_version} listed before {version}): either the
+    update refuses and leaves the files alone, or every occurrence shows the new version through its own pattern."""
+    from . import impl, project
+    content = "Current release: v202401.1001-beta\n"
+    prj = project.TempProject("vYYYY0M.BUILD[-TAG]", "v202401.1001-beta", files={"README.md": ["{pep440_version}", "{version}"]}, contents={"README.md": content})
+    with prj:
+        before = prj.snapshot()
+        code, out, logs, exc = prj.run(impl, ["update", "--no-fetch", "--date", "2024-01-20"])
+        after = prj.snapshot()
+    rep.case(("shadowed-pattern",), nontrivial=True)
+    got = after.get("README.md", b"").decode("utf-8", "replace")
+    if code != 0:
+        if after != before:
+            rep.violation("update exited non-zero but changed files", input=dict(patterns=["{pep440_version}", "{version}"], content=content, exit=code), **{"class": "failed-but-wrote"})
+    elif got != "Current release: v202401.1002-beta\n":
+        rep.violation("an occurrence was left stale / not rendered as the new version in README.md", input=dict(patterns=["{pep440_version}", "{version}"], content=content, got=got, exit=code,
+                      logs=logs[-3:]), **{"class": "stale-file"})
 
 
 def config_under_glob(rep):
